@@ -278,6 +278,30 @@ fn check_limits(run: &mut Run, ctx: &str, tracer: &Tracer) {
     }
 }
 
+/// C19: NAT detection applies to IPv4/UDP/Dublin only — every hop of every other configuration reports
+/// not-applicable; and the simulated network of this component rewrites nothing, so an IPv4/UDP/Dublin trace
+/// never reports NAT detected
+fn check_nat(run: &mut Run, ctx: &str, cfg: &SCfg, tracer: &Tracer) {
+    let applicable = !cfg.v6() && cfg.proto == 'u' && cfg.strat == 'd';
+    let Ok(snap) = guarded(|| tracer.snapshot()) else { return };
+    let mut ids = vec![trippy_core::FlowId(0)];
+    ids.extend(snap.flows().iter().map(|f| f.1));
+    for id in ids {
+        for h in snap.hops_for_flow(id) {
+            let n = h.last_nat_status();
+            if !applicable && !matches!(n, trippy_core::NatStatus::NotApplicable) {
+                run.fail("c19-stack-nat-applicable", format!("{ctx}: flow {} hop ttl {} reports {n:?} (not an IPv4/UDP/Dublin trace)", id.0, h.ttl()));
+                return;
+            }
+            if applicable && matches!(n, trippy_core::NatStatus::Detected) {
+                run.fail("c19-stack-nat-without-rewrite", format!("{ctx}: flow {} hop ttl {} reports NAT although nothing rewrites datagrams", id.0, h.ttl()));
+                return;
+            }
+        }
+    }
+    run.count("c19:stack-nat-checked");
+}
+
 /// the kind of the error recorded in the state, or `-`
 fn error_token(tracer: &Tracer, expect: Option<&Error>, run: &mut Run, ctx: &str) -> String {
     let snap = tracer.snapshot();
@@ -564,6 +588,7 @@ pub fn open_loop(run: &mut Run, cfg: &SCfg, t0: u64, iters: usize, clears: bool,
     }
     let et = error_token(&tracer, failed.as_ref(), run, &ctx);
     truth.check_totals(run, &ctx, &tracer);
+    check_nat(run, &ctx, cfg, &tracer);
     let dump = match guarded(|| crate::agg::show_full(&tracer.snapshot())) {
         Ok(s) => format!("{s} error={et}"),
         Err(loc) => {
@@ -610,6 +635,25 @@ struct Loop {
 /// run one case closed loop: no responses, the clock advances by `dts` (cyclically) in every wait, a
 /// socket error is armed from iteration `fault.0` on until a send consumes it
 pub fn closed_loop(run: &mut Run, cfg: &SCfg, t0: u64, dts: &[u64], fault: Option<(usize, &'static str, Inject)>) {
+    closed_loop_noise(run, cfg, t0, dts, fault, None);
+}
+
+/// an ICMP Time Exceeded from a router on somebody else's path, quoting a TCP SYN from this host to another
+/// target (what a second `trip --tcp` on the same host causes): never for this tracer
+fn foreign_tcp_time_exceeded(cfg: &SCfg, rng: &mut Rng) -> (IpAddr, Vec<u8>) {
+    let w = cfg.ccfg().wire();
+    let from = IpAddr::V4(std::net::Ipv4Addr::new(10, 9, 9, 9));
+    let mut q = vec![0x45, 0, 0, 40, 0x12, 0x34, 0x40, 0, 1, 6, 0, 0];
+    q.extend(crate::wire_enc::octets(cfg.src));
+    q.extend([10, 0, 0, 77]);
+    q.extend([0x9c, 0x40, 0x01, 0xbb, 0, 0, 0, 1, 0, 0, 0, 0, 0x50, 0x02, 0xff, 0xff, 0, 0, 0, 0]);
+    let (la, body) = icmp_body(false, &q, ExtMode::None, &[]);
+    let icmp = icmp_message(&w, ty_te(false), 0, la, &body, from);
+    (from, deliver(&w, &icmp, from, rng))
+}
+
+/// as `closed_loop`; with `noise` the receive socket is readable in every iteration and delivers that datagram
+pub fn closed_loop_noise(run: &mut Run, cfg: &SCfg, t0: u64, dts: &[u64], fault: Option<(usize, &'static str, Inject)>, noise: Option<(IpAddr, Vec<u8>)>) {
     crate::strategy::set_addr_num(true);
     let ctx = cfg.new_line(t0);
     run.count("stack:closed-case");
@@ -630,6 +674,8 @@ pub fn closed_loop(run: &mut Run, cfg: &SCfg, t0: u64, dts: &[u64], fault: Optio
     let state = Rc::new(RefCell::new(Loop { iters: vec![], armed: None, timed_out: false }));
     let st2 = state.clone();
     let dts_v = dts.to_vec();
+    let noise_h = noise.clone();
+    let (rd_tok, dg_tok) = noise.as_ref().map_or(("n".to_string(), "x".to_string()), |(a, b)| ("r".to_string(), dgram_token(&Dgram::Data(Some(*a), b.clone()))));
     simsock::set_readable_hook(Some(Box::new(move |n: u64| {
         let mut l = st2.borrow_mut();
         let ops = simsock::take_ops();
@@ -650,6 +696,10 @@ pub fn closed_loop(run: &mut Run, cfg: &SCfg, t0: u64, dts: &[u64], fault: Optio
         if clock::now_ns() > budget {
             l.timed_out = true;
             return Poll::Fails;
+        }
+        if let Some((from, bytes)) = &noise_h {
+            simsock::push_datagram(bytes.clone(), Some(SocketAddr::new(*from, 0)));
+            return Poll::Yes;
         }
         Poll::No
     })));
@@ -680,7 +730,7 @@ pub fn closed_loop(run: &mut Run, cfg: &SCfg, t0: u64, dts: &[u64], fault: Optio
     for (i, (ops, armed, dt)) in l.iters.iter().enumerate() {
         let ops = if i == 0 { &ops[ncon..] } else { &ops[..] };
         let pub_s = pubs.iter().find(|p| p.0 == i + 1).map_or("none".to_string(), |p| p.1.clone());
-        run.op(format!("stack itq {} {dt} n x -", inj_tok(armed)), format!("calls={} pub={pub_s}", show_calls(ops)));
+        run.op(format!("stack itq {} {dt} {rd_tok} {dg_tok} -", inj_tok(armed)), format!("calls={} pub={pub_s}", show_calls(ops)));
         run.count("op:itq");
     }
     let ctxs = format!("{ctx} closed loop dts={dts:?} fault={:?}", fault.map(|f| (f.0, f.1, io_kind_name(f.2))));
@@ -709,7 +759,7 @@ pub fn closed_loop(run: &mut Run, cfg: &SCfg, t0: u64, dts: &[u64], fault: Optio
             } else {
                 // the partial iteration in which the send failed
                 let armed = l.armed;
-                run.op(format!("stack itq {} 0 n x -", inj_tok(&armed)), format!("err {}", chan_err_kind(&e)));
+                run.op(format!("stack itq {} 0 {rd_tok} {dg_tok} -", inj_tok(&armed)), format!("err {}", chan_err_kind(&e)));
                 run.count("stack:closed-err");
             }
             failed = Some(e);
@@ -1017,6 +1067,32 @@ pub fn run(rng: &mut Rng, thorough: bool, _corpus: &[String]) -> Run {
                 closed_loop(&mut run, &cfg, rng.below(1000) * 1000, &dts, fault);
             }
         }
+    }
+    // closed loop, UDP/Dublin over IPv6, a long silent trace: more than 1000 sequence numbers are used, so the
+    // sequence has to restart at the initial sequence in time (the payload length is derived from it and must fit
+    // the packet buffer) — a configuration the builder accepts must not panic however long it runs
+    for initial in if thorough { vec![33434u16, 0, 64000] } else { vec![33434u16] } {
+        let mut cfg = gen_cfg(rng, 'u', true);
+        cfg.strat = 'd'; cfg.privileged = true; cfg.initial = initial; cfg.pd = Pd::Src(5000);
+        cfg.first = 1; cfg.max = 30; cfg.inflight = 24; cfg.max_rounds = Some(50);
+        cfg.min_round = 100 * MS; cfg.max_round = 100 * MS; cfg.grace = 10 * MS;
+        if cfg.build().is_ok() {
+            run.count("directed:dublin-v6-long-run");
+            closed_loop(&mut run, &cfg, rng.below(1000) * 1000, &[4 * MS], None);
+        }
+    }
+    // closed loop, TCP, a busy ICMP socket: in every iteration the receive socket delivers a Time Exceeded that
+    // belongs to another tracer on the host; the connects of this tracer's probes never complete. The run still
+    // publishes its n rounds (more than 256 probes in all, far fewer outstanding at any time) and returns Ok
+    for k in 0..if thorough { 4 } else { 1 } {
+        let mut cfg = gen_cfg(rng, 't', false);
+        cfg.first = 1; cfg.max = 24 + (k as u8 % 3) * 3; cfg.inflight = 24;
+        cfg.max_rounds = Some(14);
+        cfg.min_round = 500 * MS; cfg.max_round = 500 * MS; cfg.grace = 10 * MS;
+        cfg.tcp_timeout = 500 * MS;
+        let noise = foreign_tcp_time_exceeded(&cfg, rng);
+        run.count("directed:tcp-busy-icmp-socket");
+        closed_loop_noise(&mut run, &cfg, rng.below(1000) * 1000, &[20 * MS], None, Some(noise));
     }
     clock::disable();
     run
